@@ -873,7 +873,9 @@ def get_unique_seq(onsets, offsets, unique_onset_idxs=None, return_diff=False):
     first_time = np.min(onsets)
 
     # ensure last score time is later than last onset
-    if np.max(onsets) == np.max(offsets):
+    # (single-precision sums: 1.3333334 + 0.6666667 is 2.0000001, which would
+    # leave a last inter-onset interval of 1e-7 beats)
+    if np.isclose(np.max(onsets), np.max(offsets)):
         # last note without duration (grace note)
         last_time = np.max(onsets) + 1
     else:
